@@ -135,4 +135,15 @@ PLAN = {
         quick=[dict(test="TestC08A", cases=800, shards=8, timeout=900), dict(test="TestC08B", cases=1600, shards=8, timeout=900)],
         thorough=[dict(test="TestC08A", cases=24000, shards=8, timeout=3400, shrink=120), dict(test="TestC08B", cases=48000, shards=8, timeout=3400, shrink=120)],
     ),
+    "C13": dict(
+        level="exploration",
+        rule=("histories (<= 35 ops quick / 90 thorough) on a chain module with 2..5 governance-approved oracles (threshold 100 FX, multiple 10, signed window 2..4, slash fraction 0/1/10/50/100 %): bond with amounts below / inside / above the bounds and with another oracle's bridger or external address, "
+              "add-delegate, re-delegate, edit-bridger (handler level), withdraw-reward, governance list updates (arbitrary subsets, remove-one), per-oracle oracle-set confirmations, end blocks, validator slashing, passing of the unbonding period (real staking end blocker), withdrawal before / after maturity and repeated. "
+              "Oracle: record <-> bridger index <-> external index bijection from the raw stores after every step; only approved oracles bond, inside the bounds, paying exactly the stake; recorded stake = transferred - penalties and equals what is delegated on its behalf; one update never removes >= 30 % of online power; "
+              "an oracle goes offline at an end block only if an oracle set created at or after its start height stayed unconfirmed by it for the signed window; after removal and maturity the withdrawal succeeds once, pays delegate-account balance minus penalty and deletes the three records; before maturity it must not delete them. "
+              "non-trivial = a stake withdrawn after maturity, a slash decision, or a removal followed by the unbonding period"),
+        assumptions=["edit-bridger is exercised at handler level only (its ValidateBasic demands a validator-operator prefix on this snapshot)"],
+        quick=[dict(test="TestC13", cases=960, shards=16, timeout=900)],
+        thorough=[dict(test="TestC13", cases=32000, shards=16, timeout=3400, shrink=120)],
+    ),
 }
